@@ -96,6 +96,9 @@ class SeqBase:
         def g():
             for i in range(self.n):
                 if i == self.bad:
+                    if self.exc == "Unserializable":
+                        yield [7, i, object()]      # an item that no serializer can put on the wire: the fetch fails
+                        return
                     raise ITER_EXCS[self.exc]("boom-%d" % i)
                 yield [7, i]
         return g()
@@ -269,7 +272,7 @@ class StreamWorld(World):
               "reconnect_within_linger", "reconnect_after_linger", "terminated_error", "client_local_closed",
               "streaming_disabled", "two_proxies", "concurrent_streams", "multiplex", "thread", "housekeeping_observed",
               "temp_proxy_close", "client_local_stop", "preempted", "raced",
-              "connection_dropped", "continued_after_drop", "concurrent_ops", "client_correlation_id", "disconnect_during_table_change", "chatter", "combined", "combined_slave_idle_expiry", "external_loop", "reply_lost", "continued_after_lost_reply", "fetch_during_disconnect", "stalled", "foreign_thread_close", "foreign_thread_finalize", "transient_socket_errors", "slow_fetch_timed_out", "iterated_proxy", "iterated_proxy_generator_raises"]
+              "connection_dropped", "continued_after_drop", "concurrent_ops", "client_correlation_id", "disconnect_during_table_change", "chatter", "combined", "combined_slave_idle_expiry", "external_loop", "reply_lost", "continued_after_lost_reply", "fetch_during_disconnect", "stalled", "foreign_thread_close", "foreign_thread_finalize", "transient_socket_errors", "slow_fetch_timed_out", "iterated_proxy", "iterated_proxy_generator_raises", "unserializable_item"]
     # also counted, but too schedule-dependent to demand: "fetch_before_old_disconnect", "expired_but_still_answers"
     RULE = ("plan = (server type, serializer, ITER_STREAMING on/off, ITER_STREAM_LIFETIME in {0,5,20}, ITER_STREAM_LINGER in "
             "{0,3,10}, 18% of the multiplex plans 'combined': the streams live on a second daemon served by the first one's loop (Daemon.combine), "
@@ -353,7 +356,7 @@ class StreamWorld(World):
             return {"servertype": rng.choice(["thread", "multiplex"]), "serializer": rng.choice(SERIALIZERS), "streaming": True,
                     "lifetime": 0, "linger": rng.choice([0, 10]), "nproxies": 1, "streams": [], "ops": [],
                     "iterproxy": {"n": n, "bad": rng.choice([-1, rng.randint(0, n), rng.randint(0, n)]),
-                                  "exc": rng.choice(sorted(ITER_EXCS)), "getitem": rng.random() < 0.6},
+                                  "exc": rng.choice(sorted(ITER_EXCS) + ["Unserializable", "Unserializable"]), "getitem": rng.random() < 0.6},
                     "p_block": rng.choice([0.0, 0.0, 0.3]), "net": {"shuffle_select": rng.random() < 0.5}}
         servertype = rng.choice(["thread", "multiplex"])
         streaming = rng.random() >= 0.07
@@ -677,7 +680,7 @@ class StreamWorld(World):
         ctx.probe("iterated_proxy")
         if want_exc:
             ctx.probe("iterated_proxy_generator_raises")
-        if isinstance(err, E.CommunicationError):
+        if isinstance(err, E.CommunicationError) and not (want_exc == "Unserializable" and isinstance(err, E.ProtocolError)):
             ctx.disturbed = "iteration lost its connection: %s" % err
             return
         what = "for x in proxy over %d items%s" % (n, (", generator raises %s at position %d" % (want_exc, bad)) if want_exc else "")
@@ -690,6 +693,8 @@ class StreamWorld(World):
             if err is None:
                 ctx.violate("generator-exception-lost", "iterate-proxy:" + want_exc, "%s ended without the generator's exception after %r"
                             % (what, got))
+            elif want_exc == "Unserializable":
+                ctx.probe("unserializable_item")
             elif type(err).__name__ != want_exc:
                 ctx.violate("generator-exception-lost", "iterate-proxy:wrong:" + want_exc, "%s raised %s: %s instead of the generator's "
                             "exception" % (what, type(err).__name__, err))
@@ -697,12 +702,16 @@ class StreamWorld(World):
                 ctx.probe("generator_exception")
         elif not want_exc and err is not None:
             ctx.violate("error-while-live", "iterate-proxy", "%s raised %s: %s" % (what, type(err).__name__, err))
+        # (a fetch whose item could not be serialised leaves the stream alive - the server-side iterator did not fail; whatever
+        #  state the stream is in, it must be gone once the client has left and the linger period has passed)
+        err = None
+        px._pyroRelease()
         sched.settle()
-        sched.sleep(2 * POLL + 1)
+        sched.sleep(float(plan["linger"]) + 2 * POLL + 1)
         sched.settle()
         if daemon.streaming_responses:
-            ctx.violate("stream-leaked", "iterate-proxy", "%d stream(s) left in the table after the iteration ended" % len(daemon.streaming_responses))
-        px._pyroRelease()
+            ctx.violate("stream-leaked", "iterate-proxy", "%d stream(s) left in the table %.0f s after the client had gone (linger %s)"
+                        % (len(daemon.streaming_responses), float(plan["linger"]) + 2 * POLL + 1, plan["linger"]))
         daemon.shutdown()
 
     def _slowfetch(self, ctx, run, its):
